@@ -74,6 +74,7 @@ type fidCase struct {
 	Publish  []fidPub    `json:"publish"`
 	PullPath string      `json:"pull_path"` // e.g. /pull/p
 	Reopen   bool        `json:"reopen"`
+	Detour   string      `json:"detour"` // "" | cancel-resume | cancel-requeue | ids: an operator detour between acceptance and consumption
 }
 
 type fidIn struct {
@@ -570,6 +571,32 @@ func fidelityCase(dir string, c fidCase) (out fidCaseOut) {
 		}
 		out.Obs = append(out.Obs, obs...)
 		return true
+	}
+	// ---- operator detour: every accepted message is canceled and brought back (by filter, or by id list) before anybody consumes it
+	if c.Detour != "" {
+		var derr error
+		switch c.Detour {
+		case "cancel-resume":
+			if _, derr = rig.store.CancelMessagesByFilter(queue.MessageManageFilterRequest{Limit: 1000}); derr == nil {
+				_, derr = rig.store.ResumeMessagesByFilter(queue.MessageManageFilterRequest{Limit: 1000})
+			}
+		case "cancel-requeue":
+			if _, derr = rig.store.CancelMessagesByFilter(queue.MessageManageFilterRequest{Limit: 1000}); derr == nil {
+				_, derr = rig.store.RequeueMessagesByFilter(queue.MessageManageFilterRequest{Limit: 1000, State: queue.StateCanceled})
+			}
+		case "ids":
+			var ids []string
+			for _, e := range envs {
+				ids = append(ids, e.ID)
+			}
+			if _, derr = rig.store.CancelMessages(queue.MessageCancelRequest{IDs: ids}); derr == nil {
+				_, derr = rig.store.ResumeMessages(queue.MessageResumeRequest{IDs: ids})
+			}
+		}
+		if derr != nil {
+			out.Err = "detour " + c.Detour + ": " + derr.Error()
+			return
+		}
 	}
 	// ---- (d) Admin listing
 	if !add(rig.adminList(client, "admin1")) {
